@@ -3,6 +3,7 @@ pub mod c04;
 pub mod c05;
 pub mod c06;
 pub mod c07;
+pub mod c08;
 pub mod c09;
 pub mod c10;
 pub mod c11;
@@ -23,6 +24,7 @@ pub fn dispatch(p: &str, rep: &mut Report) -> bool {
         "C05" => c05::run(rep),
         "C06" => c06::run(rep),
         "C07" => c07::run(rep),
+        "C08" => c08::run(rep),
         "C09" => c09::run(rep),
         "C10" => c10::run(rep),
         "C11" => c11::run(rep),
